@@ -104,13 +104,15 @@ def _kernel(case, ctx, g):
     _ST["rec"] = []
     with S.lazily_evaluate_kernels(False), torch.autograd.set_detect_anomaly(True):
         out_fast = kern(x1, x2).to_dense()
-        (g_fast,) = torch.autograd.grad((out_fast * G).sum(), raw)
+        (g_fast,) = torch.autograd.grad((out_fast * G).sum(), raw, retain_graph=True)
+        (g_again,) = torch.autograd.grad((out_fast * G).sum(), raw)
+        ctx.expect("backward_repeatable", bool(torch.equal(g_fast, g_again)), f"{name}: a second backward through the same graph returned another gradient", function="kernel")
         rec = _ST["rec"]
         _ST["rec"] = None
         with S.trace_mode(True):
             out_gen = kern(x1, x2).to_dense()
             (g_gen,) = torch.autograd.grad((out_gen * G).sum(), raw)
-    ctx.expect("fast_path_taken", len(rec) == 1, f"hand-written backward ran {len(rec)} times on the fast path")
+    ctx.expect("fast_path_taken", len(rec) == 2, f"hand-written backward ran {len(rec)} times on the fast path (two backward passes were requested)")
     ctx.close("fast_equals_generic", out_fast, out_gen, (1e-12, 1e-12), cls=cls + ":value")
     ctx.close("fast_equals_generic", g_fast, g_gen, (1e-9, 1e-9), cls=cls + ":grad")
     # independent re-implementation (C05 oracle formula) differentiated by autograd
@@ -239,7 +241,10 @@ def _logcdf(case, ctx, g):
     _ST["rec"] = []
     with torch.autograd.set_detect_anomaly(True):
         out = log_normal_cdf(z)
-        (gr,) = torch.autograd.grad(out, z, up)
+        (gr,) = torch.autograd.grad(out, z, up, retain_graph=True)
+        (gr2,) = torch.autograd.grad(out, z, up, retain_graph=True)
+        (gr3,) = torch.autograd.grad(out, z, 2 * up)
+        ctx.expect("backward_repeatable", bool(torch.equal(gr, gr2)) and bool(torch.allclose(gr3, 2 * gr, rtol=1e-12, atol=0)), "LogNormalCDF: a second / third backward through the same graph returned another gradient", function="LogNormalCDF")
     _ST["rec"] = None
     ref = torch.tensor([float(mp.npdf(mp.mpf(t)) / mp.ncdf(mp.mpf(t))) for t in z.detach().tolist()]) * up
     rel = ((gr - ref).abs() / (ref.abs() + 1e-300)).max()
@@ -275,7 +280,9 @@ def _natural(case, ctx, g):
         ctx.close("natural_forward", mu, (Sref @ th1.detach().unsqueeze(-1)).squeeze(-1), (1e-9, 1e-9))
         ctx.close("natural_forward", L @ L.transpose(-1, -2), Sref, (1e-9, 1e-9))
         g_mu, g_L = util.randn(g, *b, M), torch.tril(util.randn(g, *b, M, M))
-        d1, d2 = torch.autograd.grad([mu, L], [th1, th2], [g_mu, g_L])
+        d1, d2 = torch.autograd.grad([mu, L], [th1, th2], [g_mu, g_L], retain_graph=True)
+        e1, e2 = torch.autograd.grad([mu, L], [th1, th2], [g_mu, g_L])
+        ctx.expect("backward_repeatable", bool(torch.equal(d1, e1)) and bool(torch.equal(d2, e2)), "_NaturalToMuVarSqrt: a second backward through the same graph returned another gradient", function="natural")
     r1, r2 = _expectation_grad(mu.detach(), Sref, g_mu, g_L)
     ctx.close("natural_backward_is_natural_gradient", d1, r1, (1e-8, 1e-8), cls="natural:eta1", batch=b)
     ctx.close("natural_backward_is_natural_gradient", d2, r2, (1e-8, 1e-8), cls="natural:eta2", batch=b)
@@ -310,7 +317,9 @@ def _tril(case, ctx, g):
         ctx.close("tril_natural_forward", L, Lref, (1e-9, 1e-9))
         ctx.close("tril_natural_forward", mu, (Sref @ t1.detach().unsqueeze(-1)).squeeze(-1), (1e-9, 1e-9))
         g_mu, g_L = util.randn(g, *b, M), torch.tril(util.randn(g, *b, M, M))
-        d1, dT = torch.autograd.grad([mu, L], [t1, T], [g_mu, g_L])
+        d1, dT = torch.autograd.grad([mu, L], [t1, T], [g_mu, g_L], retain_graph=True)
+        e1, eT = torch.autograd.grad([mu, L], [t1, T], [g_mu, g_L])
+        ctx.expect("backward_repeatable", bool(torch.equal(d1, e1)) and bool(torch.equal(dT, eT)), "_TrilNaturalToMuVarSqrt: a second backward through the same graph returned another gradient", function="trilnatural")
     r1, r2 = _expectation_grad(mu.detach(), Sref, g_mu, g_L)
     ctx.close("tril_natural_backward", d1, r1, (1e-8, 1e-8), cls="tril:eta1", batch=b)
     # the matrix part: the natural-gradient direction r2 (a perturbation of theta_mat = -1/2 T^T T) pushed forward through the chart
@@ -347,7 +356,9 @@ def _ciq(case, ctx, g):
         m = (Sm @ nat_vec.detach().unsqueeze(-1)).squeeze(-1)
         ctx.close("ciq_forward", im, (t.detach().transpose(-1, -2) @ m.unsqueeze(-1)).squeeze(-1), (1e-7, 1e-7))
         ctx.close("ciq_forward", iv, (t.detach() * (Sm @ t.detach())).sum(-2), (1e-7, 1e-7))
-        dt, d1, d2 = torch.autograd.grad([im, iv, kl], [t, nat_vec, nat_mat], [up_m, up_v, up_k])
+        dt, d1, d2 = torch.autograd.grad([im, iv, kl], [t, nat_vec, nat_mat], [up_m, up_v, up_k], retain_graph=True)
+        et, e1, e2 = torch.autograd.grad([im, iv, kl], [t, nat_vec, nat_mat], [up_m, up_v, up_k])
+        ctx.expect("backward_repeatable", all(bool(torch.allclose(a_, b_, rtol=1e-9, atol=1e-12)) for a_, b_ in ((dt, et), (d1, e1), (d2, e2))), "_NgdInterpTerms: a second backward through the same graph returned another gradient", function="ciq")
     # oracle: the same three outputs as explicit functions of the expectation parameters (eta1 = m, eta2 = S + m m^T) and of t
     eta1 = m.clone().requires_grad_(True)
     eta2 = (Sm + m.unsqueeze(-1) * m.unsqueeze(-2)).clone().requires_grad_(True)
